@@ -268,7 +268,8 @@ func inRange(ip net.IP, CIDRs []string) bool {
 		cidr := CIDRs[i]
 		_, network, err := net.ParseCIDR(cidr)
 		if err != nil {
-			return false
+			// an entry that does not parse must not hide the entries after it
+			continue
 		}
 		if network.Contains(ip) {
 			return true
